@@ -6,6 +6,7 @@ import numpy as np
 from vlib import calgen as CG
 from vlib import calmon as CM
 from vlib import gen as G
+from vlib import models as M
 from vlib.core import jhash, quiet, rng_for
 
 ID = "C02"
@@ -13,7 +14,12 @@ LEVEL = "exploration"
 RULE = (
     "case = generated calibrator configuration (1-4 parameters, line-up of 1-5 samplers from the nine built-ins with batch "
     "sizes 1-4, ensemble 1-3, any built-in loss with options, witness model in plain / 1e300 / +inf / >float32 variants, "
-    "sim_length != len(real_data) for losses that allow it) driven through 1-4 successive calibrate(n) calls, n_jobs 1 or 2. "
+    "sim_length shorter or longer than len(real_data) for losses that allow it; a fifth of the cases on a grid with fewer "
+    "points than rows so that proposals repeat; a seventh with a coarse user loss producing exact ties and NaN; the n_jobs=2 "
+    "cases with a model whose run time varies per task) driven through 1-4 successive calibrate(n) calls with set_samplers "
+    "or set_scheduler (fresh round-robin scheduler, or one that already served another calibrator) between calls. With "
+    "n_jobs=1 every model invocation is recorded: invocation r*E+e must be (recorded vector of row r, seed decoded from "
+    "member e) and the count must be rows x ensemble. "
     "At every batch boundary and after every calibrate() the history is snapshotted; oracle per row: parameters == what the "
     "designated sampler returned, each ensemble member decodes to that vector and the configured length and equals a re-run "
     "of the model on (vector, N, decoded seed), loss == loss function on the recorded series (pristine copy), consecutive "
@@ -25,7 +31,7 @@ ASSUMPTIONS = [
     "a recomputed loss within 1e-12 relative of the recorded one counts as equal (BLAS summation order may depend on buffer alignment); counted as loss_ulp_wobble",
     "third-party estimator failures on extreme histories end the run early (counted), they are C11's subject, not C02's",
 ]
-REQUIRED_COUNTERS = {"runs": 30, "rows_checked": 200, "members_decoded": 300, "losses_recomputed": 200, "snapshots": 100,
+REQUIRED_COUNTERS = {"model_invocations_matched": 200, "runs_with_repeated_proposals": 5, "runs_with_tied_losses": 4, "runs": 30, "rows_checked": 200, "members_decoded": 300, "losses_recomputed": 200, "snapshots": 100,
                      "multi_call_runs": 10, "extreme_runs": 5, "tile_repeat_distinguishable": 5}
 SHARDS = {"quick": 16, "thorough": 16}
 SHARD_WATCHDOG = {"quick": 1500, "thorough": 10800}
@@ -41,23 +47,35 @@ def run_case(desc, ctx):
     out = {"violations": [], "counters": {}, "evals": 0, "nontrivial": []}
     c = out["counters"]
     model = str(rng.choice(["plain", "plain", "mut", "huge", "inf", "f32"]))
+    n_jobs = 2 if desc["i"] % 8 == 5 else 1
+    if n_jobs == 2 and model == "plain":
+        model = "slow"          # tasks of one batch finish out of submission order
+    tiny = desc["i"] % 5 == 1    # fewer grid points than rows: proposals repeat (de-duplication gives up, PSO/CORS never de-duplicate)
+    tied = desc["i"] % 7 == 2    # a user loss with many exactly equal values and some NaN
     cheap = desc["i"] % 3 != 0
-    kinds = G.CHEAP + ["XGBoost"] if (cheap or model not in ("plain", "mut")) else None
+    plainish = model in ("plain", "mut", "slow")
+    kinds = G.CHEAP + ["XGBoost"] if (cheap or not plainish) else None
     cfg = CG.gen_config(rng, kinds=kinds, model=model, max_bs=4, n_samplers=int(rng.integers(1, 6)),
-                        loss_kinds=["minkowski", "minkowski", "msm", "fourier"] if model not in ("plain", "mut") else None)
-    if model not in ("plain", "mut") and rng.random() < 0.7:  # make sure a history reader meets the extreme losses
+                        loss_kinds=["minkowski"] if tied else (["minkowski", "minkowski", "msm", "fourier"] if not plainish else None),
+                        **({"max_points": 3, "max_params": 2} if tiny else {}))
+    if not plainish and rng.random() < 0.7:  # make sure a history reader meets the extreme losses
         cfg["lineup"].append(G.gen_sampler_desc(rng, str(rng.choice(["XGBoost", "BestBatch", "ParticleSwarm"])), batch_size=1))
     calls = [int(x) for x in rng.integers(1, 4, size=int(rng.integers(1, 5)))]
-    n_jobs = 2 if desc["i"] % 8 == 5 else 1
-    wit = {"config": cfg, "calls": calls, "n_jobs": n_jobs}
+    wit = {"config": cfg, "calls": calls, "n_jobs": n_jobs, "user_loss_with_ties": tied}
+    model_fn = CG.model_for(cfg)
+    counting = M.Counting(model_fn) if n_jobs == 1 else None
     try:
         with quiet():
-            cal = CG.build_calibrator(cfg, n_jobs=n_jobs)
+            user_loss = None
+            if tied:
+                from vlib.userloss import TiedLoss
+
+                user_loss = TiedLoss(p=2)
+            cal = CG.build_calibrator(cfg, n_jobs=n_jobs, model=counting, loss=user_loss)
             pristine = CM.pristine(cal.loss_function)
     except Exception as e:  # noqa: BLE001
         out["violations"].append({"msg": f"constructor raised {type(e).__name__}: {e}", "witness": wit})
         return out
-    model_fn = CG.model_for(cfg)
     done_batches = 0
     with CM.RunMonitor(cal) as mon:
         for ci, n in enumerate(calls):
@@ -69,6 +87,21 @@ def run_case(desc, ctx):
                     cal.set_samplers([G.build_sampler(d) for d in new])
                 wit.setdefault("set_samplers_before_call", {})[ci] = [d["kind"] for d in new]
                 c["set_samplers_between_calls"] = c.get("set_samplers_between_calls", 0) + 1
+            elif ci > 0 and cfg["scheduler"] != "rl" and rng.random() < 0.2:
+                # the scheduler is replaced by a new round-robin one (fresh, or one that already served another calibrator)
+                from black_it.schedulers.round_robin import RoundRobinScheduler
+
+                new = G.gen_lineup(rng, n=int(rng.integers(1, 4)), kinds=G.HISTORY_FREE, max_bs=2)
+                sch = RoundRobinScheduler([G.build_sampler(d) for d in new])
+                used = bool(rng.random() < 0.5)
+                with quiet():
+                    if used:
+                        other = CG.build_calibrator(cfg)
+                        other.set_scheduler(sch)
+                        other.calibrate(int(rng.integers(1, 4)))
+                    cal.set_scheduler(sch)
+                wit.setdefault("set_scheduler_before_call", {})[ci] = {"lineup": [d["kind"] for d in new], "served_another_calibrator_before": used}
+                c["set_scheduler_between_calls"] = c.get("set_scheduler_between_calls", 0) + 1
             try:
                 with quiet(), G.time_limit(G.LIMIT):
                     cal.calibrate(n)
@@ -86,6 +119,8 @@ def run_case(desc, ctx):
         c["multi_call_runs"] = 1
     if model == "mut":
         c["models_mutating_their_argument"] = 1
+    elif model == "slow":
+        c["models_with_uneven_run_time"] = 1
     elif model != "plain":
         c["extreme_runs"] = 1
     batches = [b for b in mon.batches()]
@@ -93,6 +128,34 @@ def run_case(desc, ctx):
     with quiet():
         bad = CM.check_alignment(cal, completed, pristine, cfg["P"], rerun_model=model_fn, counters=c)
     c["rows_checked"] = int(cal.n_sampled_params)
+    if counting is not None:
+        # the model is run once per ensemble member of every recorded row, in row order, on the recorded vector
+        n_rows, E = int(cal.n_sampled_params), int(cal.ensemble_size)
+        calls_seen = counting.calls
+        if "ended_by" not in wit and c.get("third_party_timeout", 0) == 0 and len(calls_seen) != n_rows * E:
+            bad.append(f"{n_rows} rows x ensemble {E} recorded but the model was invoked {len(calls_seen)} times (every member must be simulated)")
+        elif len(calls_seen) < n_rows * E:
+            bad.append(f"{n_rows} rows x ensemble {E} recorded but the model was invoked only {len(calls_seen)} times")
+        else:
+            for r in range(n_rows):
+                for e in range(E):
+                    th, sd, nn = calls_seen[r * E + e]
+                    dec = M.decode(cal.series_samp[r][e], cfg["P"]) if cal.series_samp[r].shape[0] == E else None
+                    if th != np.asarray(cal.params_samp[r], dtype=float).tobytes() or (dec is not None and int(dec[1]) != sd):
+                        bad.append(f"row {r} member {e}: invocation {r * E + e} of the model was not made on the recorded vector/seed of that row")
+                        break
+                else:
+                    continue
+                break
+        c["model_invocations_matched"] = c.get("model_invocations_matched", 0) + min(len(calls_seen), n_rows * E)
+        if len({bytes(np.asarray(p, dtype=float).tobytes()) for p in cal.params_samp}) < n_rows:
+            c["runs_with_repeated_proposals"] = 1
+    if tied:
+        ls = cal.losses_samp
+        if len(ls) > len(set(repr(float(x)) for x in ls)):
+            c["runs_with_tied_losses"] = 1
+        if np.any(np.isnan(ls)):
+            c["runs_with_nan_losses"] = 1
     c["snapshots"] = len(mon.snaps)
     bad += CM.check_prefixes(mon.snaps)
     for e in mon.events:
